@@ -27,6 +27,9 @@ every index bit vector. `…C` is the value the circuit built by the Rust gadget
   `periodic_eq_interpolant`— and at *every* point it is the value of the unique interpolant of
                              degree < period through the column (Mathlib `Lagrange.interpolate`),
                              i.e. the specification of p3's `evaluate_periodic_column_at`;
+  (`P3R.Props.C20Idft`: the build-time inverse coset DFT is modelled and its postcondition proved —
+   `periodic_interpolates_total` / `periodic_eq_interpolant_total` are the two statements above with
+   the coefficients computed by the model and without the `hidft` / `hinj` hypotheses)
 * `horner_poly_eq`         — `evaluate_polynomial` = `Σ cᵢ xⁱ` = native `horner`, every length ≥ 1;
 * `domain_point_eq`        — `compute_final_query_point` on boolean bits = `g^(reversed index)`;
   `eval_point_eq`          — `precompute_evaluation_points` for every captured height.
